@@ -1028,17 +1028,19 @@ Section WireProofs.
   (** what is used of [http::uri::Authority::try_from]: it accepts only text (visible ASCII) *)
   Hypothesis auth_text : forall h, auth_ok h = true -> is_text h.
 
-  Definition wf_wreq (r : wreq) : Prop := forall a, w_tr r = TR_H2 -> w_authority r = Some a -> is_text a.
+  (** a request the clients of the harness can send: origin-form target; the [:authority] of an HTTP/2 request is text *)
+  Definition wf_wreq (r : wreq) : Prop :=
+    starts_with [47] (w_path r) = true /\ forall a, w_tr r = TR_H2 -> w_authority r = Some a -> is_text a.
 
   (** After the repairs every HTTP/1.x request is accepted, and what [get_from_request] makes of its header
       and URI is what the reference makes of its last Host line. *)
-  Lemma h1_accept_fixed ops c hh sni : build ops = Ok c ->
-    exists authority, h1_accept auth_ok fixed c hh = Some (wire_hosts hh, authority) /\
+  Lemma h1_accept_fixed ops c hh target sni : build ops = Ok c -> starts_with [47] target = true ->
+    exists authority, h1_accept auth_ok fixed c hh target = Some (wire_hosts hh, authority) /\
       (forall a, authority = Some a -> is_text a) /\
       route_general ops sni (first_some (text_hd (wire_hosts hh)) authority)
       = route_general ops sni (hd_error (wire_hosts hh)).
   Proof.
-    intros H. unfold h1_accept. cbn [fixed fx_nohost fx_authority].
+    intros H Hof. unfold h1_accept. cbn [fixed fx_nohost fx_authority]. rewrite Hof. cbn [andb].
     destruct (wire_hosts hh) as [|h l] eqn:Ew.
     - destruct (c_default c) as [d|] eqn:Hd.
       + destruct (auth_ok d) eqn:Ea.
@@ -1092,9 +1094,9 @@ Section WireProofs.
       destruct (marker_serve (hid h) (st (hid h)) (w_method r) (w_path r) (w_flags r)) as [s' rep]. reflexivity. }
     destruct (w_tr r =? TR_H2) eqn:Etr.
     - apply Hserve.
-      + intros a Ea. apply Hwf; [apply N.eqb_eq; exact Etr | exact Ea].
+      + intros a Ea. apply (proj2 Hwf); [apply N.eqb_eq; exact Etr | exact Ea].
       + unfold wire_host_header. rewrite Etr. reflexivity.
-    - destruct (h1_accept_fixed ops c (w_hosts r) (w_conn_sni r) H) as [authority [Hacc [Ha Hroute]]].
+    - destruct (h1_accept_fixed ops c (w_hosts r) (w_path r) (w_conn_sni r) H (proj1 Hwf)) as [authority [Hacc [Ha Hroute]]].
       rewrite Hacc. apply Hserve; [exact Ha|].
       rewrite Hroute. unfold wire_host_header. rewrite Etr. reflexivity.
   Qed.
@@ -1257,7 +1259,7 @@ Definition ab_default_ops : list op := [ (false, cfg (B "a.test") []); (true, cf
 Definition get1 (tr : N) (sni : option bytes) (hh : list bytes) (authority : option bytes) : wreq :=
   mkW tr sni false s_GET hh authority (B "/h/page") 0.
 
-(** before 45dd663: a request without Host header is not answered when there is no default host *)
+(** before e8886f0: a request without Host header is not answered when there is no default host *)
 Lemma absent_host_closed_refuted : forall auth_ok : bytes -> bool,
   exists ops c r, build ops = Ok c /\
     wire_history auth_ok snapshot c (fun _ => hstate0) [r] = [Ok WClosed] /\
@@ -1268,7 +1270,7 @@ Proof.
   split; [vm_compute; reflexivity|]. split; [|split]; vm_compute; reflexivity.
 Qed.
 
-(** before e25cce6: a Host value that is not a URI authority closes the connection, also when there is a
+(** before c618f50: a Host value that is not a URI authority closes the connection, also when there is a
     default host that the property names as the one to answer *)
 Lemma bad_authority_closed_refuted : forall auth_ok : bytes -> bool, auth_ok (B "a b") = false ->
   exists ops c r, build ops = Ok c /\
@@ -1282,7 +1284,7 @@ Proof.
   split; [|split]; vm_compute; try rewrite Hbad; reflexivity.
 Qed.
 
-(** before cfbe98f: an HTTP/2 request without SNI is answered by the default host whatever its :authority *)
+(** before 7667690: an HTTP/2 request without SNI is answered by the default host whatever its :authority *)
 Lemma h2_authority_ignored_refuted : forall auth_ok : bytes -> bool,
   exists ops c r, build ops = Ok c /\
     wire_history auth_ok (mkFixes true true false) c (fun _ => hstate0) [r] = [Ok (W200 1 1)] /\
